@@ -36,16 +36,15 @@ OPEN_STATEMENTS = [
     'equivalence of the Z-sectors of the fixed qubits): checked numerically (eigvalsh, 1e-9) on every generated case; '
     'proved: the qubit re-indexing is the order-preserving bijection with "remove" exactly at the removed positions '
     '(taper_reindex_spec) and the Pauli-table invariant of the fixed position (fixed_position_invariant)',
-    'reduce_terms_agrees_on_codespace is proved for the loop of _reduce_terms run without pruning (tol = 0: '
-    'reduce_terms_agrees_on_codespace_partial, any stabilizer list, manual or automatic positions); missing for the live '
-    'tolerance 1e-8: that no partial sum of `new_terms +=` is non-zero but below the tolerance along the run; the checks of '
+    'reduce_terms_agrees_on_codespace is proved at the live tolerance under the per-run exact-regime flag the Model '
+    'computes (every `new_terms +=` exact; the driver reports it, the stream counts exact-regime(reduce/taper):True/False); '
+    'runs whose flag is False (a partial sum non-zero but below 1e-8) are outside the theorem; the checks of '
     'reduce_number_of_terms, the existence of fixed positions and taper_off_qubits on top of it: Spec oracle',
     '_reduce_terms_keep_length / _lookup_term: correspondence + Spec oracle only',
-    'project_onto_sector_sound: proved term by term without tolerance (project_term_kept / project_term_dropped) and for '
-    'whole operators when the loop runs without pruning (project_onto_sector_sound_partial, tol = 0), relative to any '
-    'embedding E satisfying `Emb` (kept qubit q at bit shiftDown(q), removed qubits at their sector value); missing: that '
-    'Spec.C16.embed (the embedding the oracle uses) satisfies `Emb` for every qubit list, and the live tolerance 1e-8; '
-    'both covered by the exact embedded-matrix-element oracle',
+    'project_onto_sector_sound is proved at the live tolerance against the Spec embedding (project_onto_sector_sound_spec, '
+    'spec_embed_is_emb) for operators whose terms are Pauli strings on distinct qubits below n and distinct removed '
+    'qubits, under the per-run exact-regime flag (counted as exact-regime(project):True/False); duplicate entries in '
+    '`qubits` and runs whose flag is False are outside the theorem (oracle only)',
     'rotate_qubit_by_pauli_sound is proved for exact (c, s) with c^2 + s^2 = 1 in the exact regime of the four sums '
     '(ExactAdd); not proved: that numpy.cos / numpy.sin deliver such a pair (floats: Spec oracle at 1e-9) and the case '
     'where a partial sum is pruned by the 1e-8 tolerance',
